@@ -25,10 +25,10 @@ def pinnedDecide (name : String) (user dflt : Option OVal) : Option (Except Err 
 
 /-- `if user_options.get(name):` — truthiness of the supplied value (defect D12; after the repair
     `if name in user_options:` this lemma becomes `testOfString userTest = some .contains`) -/
-theorem user_test_pinned : testOfString userTest = some Test.truthyGet := by decide
+theorem user_test_pinned : testOfString userTest = some Test.contains := by decide
 
 /-- `elif option.get("default"):` — truthiness of the default (D12; after the repair `.contains`) -/
-theorem default_test_pinned : testOfString defaultTest = some Test.truthyGet := by decide
+theorem default_test_pinned : testOfString defaultTest = some Test.contains := by decide
 
 /-- what is stored is the supplied value / the declared default, as in the model -/
 theorem userStored_eq : userStored = "user_options.get(name)" := rfl
@@ -43,29 +43,18 @@ theorem option_decision_pinned_of_in (h1 : testOfString userTest = some Test.con
     pinnedDecide name user dflt = some (optionSpec name user dflt) := by
   simp only [pinnedDecide, h1, h2, Option.bind_some, Option.map_some, SnowModel.Props.C14.option_decision]
 
-/-- for the code as it is: refuted (supplied 0 with default 5 evaluates to 5; a default of 0 is an error) -/
-theorem option_decision_pinned_refuted :
-    pinnedDecide "o" (some (.int 0)) (some (.int 5)) = some (.ok (.int 5)) ∧
-    pinnedDecide "o" (some (.bool false)) none = some (.error (.noOption "o")) ∧
-    pinnedDecide "o" none (some (.int 0)) = some (.error (.noOption "o")) := by
-  simp only [pinnedDecide, user_test_pinned, default_test_pinned, Option.bind_some, Option.map_some]
-  decide
-
-/-- for the code as it is: the table holds for truthy supplied values / truthy needed defaults -/
-theorem option_decision_pinned_partial (name : String) (user dflt : Option OVal)
-    (hu : ∀ u, user = some u → u.truthy = true)
-    (hd : user = none → ∀ d, dflt = some d → d.truthy = true) :
-    pinnedDecide name user dflt = some (optionSpec name user dflt) := by
-  simp only [pinnedDecide, user_test_pinned, default_test_pinned, Option.bind_some, Option.map_some,
-    SnowModel.Props.C14.option_decision_partial name user dflt hu hd]
+/-- **the property for the code as it is** (D12 repaired): supplied ⇒ supplied value; else default; else error -/
+theorem option_decision_pinned (name : String) (user dflt : Option OVal) :
+    pinnedDecide name user dflt = some (optionSpec name user dflt) :=
+  option_decision_pinned_of_in user_test_pinned default_test_pinned name user dflt
 
 theorem mergeOptionsSource_eq : mergeOptionsSource =
     ["options = raw_plugin_options.copy() if raw_plugin_options else {}",
      "for option in option_definitions:",
      "    name = option['option']",
-     "    if user_options.get(name):",
+     "    if name in user_options:",
      "        options[name] = user_options.get(name)",
-     "    elif option.get('default'):",
+     "    elif 'default' in option:",
      "        options[name] = option['default']",
      "    else:",
      "        raise DataGenNameError(f'No definition supplied for option {name}')",
